@@ -29,3 +29,4 @@ def run(ctx):
     BR.layers_transparent(ctx, "C02.R3.layers")
     from . import multipart as MP
     MP.stream_frame(ctx, "C02.R3.frame")
+    MP.correspondence(ctx, "C02.R3.pieces")
